@@ -10,3 +10,6 @@ import Resvg.Props.C07
 #print axioms Resvg.Props.C07.C07_text_wellformed
 #print axioms Resvg.Props.C07.C07_references_resolve_partial
 #print axioms Resvg.Props.C07.C07_escape_attr_source_is_model
+#print axioms Resvg.Props.C07.wfAtt_safe
+#print axioms Resvg.Props.C07.hexDigit_safe
+#print axioms Resvg.Props.C07.C07_color_wellformed
